@@ -21,6 +21,9 @@ var mode = crashcheck.Mode{CheckAcked: true, CheckOpen: true, Depth: 1, Loader: 
 func run(opts verifmc.Options, param string) (*verifmc.Sched, *explore.Result) {
 	parts := strings.Split(param, "/")
 	sc := crashcheck.Scenarios[parts[0]]
+	if len(parts) > 1 && parts[1] == "open" {
+		return crashcheck.RunFaultyOpen("c14/"+param, sc, opts)
+	}
 	plan := crashcheck.FaultPlan{Sticky: len(parts) > 1 && parts[1] == "sticky"}
 	return crashcheck.RunFaulty("c14/"+param, sc, mode, plan, opts)
 }
@@ -40,18 +43,24 @@ func main() {
 	c.Rule = "every directory operation issued after the writer is open is an environment choice point: persist fails before any byte / after half the bytes / after the full write (at sync), load, list and remove fail; transient (that call) and, in the /sticky variants, sticky (every call of that kind until the error was reported twice). A fault costs one deviation like a scheduling deviation, so bound 1 = every single placement along the default schedule plus every single scheduling deviation, bound 2 = all pairs of placements and all (placement, scheduling deviation) pairs. Each faulty trace is then crash-enumerated like C02/C03. distinct_nontrivial = distinct (storage trace, returned errors, async errors) outcomes"
 	c.Explanation = "stateless exploration of the real writer on the crashfs device with fault answers as explicit choices. Oracle per execution: no panic, no deadlock, comes to rest within the horizon; a fault on persist/load fires the asynchronous error callback and a batch that returns an error was preceded by it; after every batch (failed or not) a held reader answers as at acquisition and a fresh reader shows every batch applied so far; a later nil return makes every earlier batch durable on every crash image (cumulative acknowledgement); no crash image faults at open or shows a non-prefix"
 	c.Assumptions = []string{
-		"single sequential client in safe mode; faults are injected only after OpenWriter succeeded",
+		"single sequential client in safe mode; in the /open scenarios the faults hit a second OpenWriter on a populated directory (list, load, clean-up removes), elsewhere they start after OpenWriter succeeded",
 		"a sticky fault clears once the asynchronous error callback fired twice",
 		"fault placements beyond the deviation bound are not explored",
 	}
-	names := []string{"safe3", "safe3/sticky", "merge4", "merge4/sticky", "safe3keep2"}
+	names := []string{"safe3", "safe3/sticky", "merge4", "merge4/sticky", "safe3keep2", "safe3/open", "merge4/open"}
 	if os.Getenv("VERIF_ONLY") != "" {
 		names = strings.Split(os.Getenv("VERIF_ONLY"), ",")
 	}
 	bound := c.Pick(1, 2)
 	budget := c.PickD(80*time.Second, 20*time.Minute)
-	for _, n := range names {
-		st := explore.Explore(explore.Config{Scenario: "c14", Param: n, Bound: bound, Budget: budget / time.Duration(len(names))})
+	deadline := time.Now().Add(budget)
+	for i, n := range names {
+		// what is left of the budget is shared by the scenarios still to run
+		per := time.Until(deadline) / time.Duration(len(names)-i)
+		if per < 2*time.Second {
+			per = 2 * time.Second
+		}
+		st := explore.Explore(explore.Config{Scenario: "c14", Param: n, Bound: bound, Budget: per})
 		c.AddExplore(st)
 		if c.Failed() {
 			break
